@@ -1,5 +1,5 @@
 // C20 harness (flavour H, real oneTBB).
-//  mode lib : every sequence of up to L calls set_global_tbb_concurrency(n), n in {1,2,3,5,16}, against the reference
+//  mode lib : every sequence of up to L calls set_global_tbb_concurrency(n), n in {1,2,3,5,16,hw+1,2hw+9} (hw = hardware threads TBB reports), against the reference
 //             automaton "last value wins"; after each call the allowed parallelism is read back (a parallel_for is run in
 //             between so that the scheduler is active), and after the last call a library entry point
 //             (mcb_sva_signed_tbb on K4) is run and the value read again.
@@ -48,7 +48,10 @@ struct SamplingBuf : std::streambuf {
 #endif
 
 enum { C_EVAL = 0, C_NONTRIV, C_STATES, C_TRANS, C_OVER };
-static const int NS[] = {1, 2, 3, 5, 16};
+// values of n: small ones, 16, and two values ABOVE the number of hardware threads TBB reports (a limit larger than the machine is
+// legal and is what active_value must then report); filled in main()
+static int NS[7] = {1, 2, 3, 5, 16, 17, 41};
+static int NV = 7;       // --nv 5: the first five values only
 #ifndef KNOB_DEMO
 // call sites: this translation unit and a second one (knob_tu2.cpp); both expand the header's inline function
 void knob_set_from_tu2(std::size_t n);
@@ -78,13 +81,15 @@ int main(int argc, char **argv) {
     std::vector<std::string> samples;
 #ifndef KNOB_DEMO
     int L = (int) A.geti("len", 2);
+    { int hw = (int) tbb::info::default_concurrency(); NS[5] = hw + 1; NS[6] = 2 * hw + 9; }
+    NV = (int) A.geti("nv", 7); if (NV < 1 || NV > 7) NV = 7;
     // enumerate sequences
     std::vector<std::vector<int>> seqs;
     // a call is (value n, call site): encoded n*8 + site; site 0 = this translation unit on the main thread (printed "n"),
     // 1 = the second translation unit on the main thread ("n@2"), 2 = this translation unit on a fresh thread that ends
     // right after the call ("n@t"), 3 / 4 = the number passed as an int / unsigned instead of a std::size_t ("n@i", "n@u")
     // - the limit is a property of the process, whoever sets it and however the number is held
-    for (int len = 1; len <= L; ++len) { uint64_t tot = 1; for (int i = 0; i < len; ++i) tot *= 25; for (uint64_t x = 0; x < tot; ++x) { std::vector<int> s; uint64_t y = x; for (int i = 0; i < len; ++i) { s.push_back(NS[(y % 25) / 5] * 8 + (int) (y % 5)); y /= 25; } seqs.push_back(s); } }
+    for (int len = 1; len <= L; ++len) { uint64_t tot = 1; for (int i = 0; i < len; ++i) tot *= NV * 5; for (uint64_t x = 0; x < tot; ++x) { std::vector<int> s; uint64_t y = x; for (int i = 0; i < len; ++i) { s.push_back(NS[(y % (NV * 5)) / 5] * 8 + (int) (y % 5)); y /= NV * 5; } seqs.push_back(s); } }
     auto cs_of = [&](const std::vector<int> &s, int upto) { std::string c = "mode=lib;calls="; for (int i = 0; i <= upto && i < (int) s.size(); ++i) c += (i ? "," : "") + std::to_string(s[i] / 8) + (s[i] % 8 == 1 ? "@2" : s[i] % 8 == 2 ? "@t" : s[i] % 8 == 3 ? "@i" : s[i] % 8 == 4 ? "@u" : ""); return c; };
     auto one = [&](const std::vector<int> &s) {
         for (size_t i = 0; i < s.size(); ++i) {
